@@ -90,6 +90,14 @@ def make_project(seed, root):
             f"module selfimpl{seed}", "!! doc of selfimpl", "implicit none", "interface", "module function sif(x) result(r)", "!! interface doc", "integer, intent(in) :: x", "integer :: r",
             "end function sif", "module subroutine sis()", "!! interface doc", "end subroutine sis", "end interface", "contains", "module procedure sif", "!! implementation doc", "r = x",
             "end procedure sif", "module subroutine sis()", "!! implementation doc", "end subroutine sis", f"end module selfimpl{seed}"]) + "\n")
+    extra_targets = []
+    if seed % 5 in (2, 4):
+        # names that contain the name of a URL scheme (they are ordinary internal pages)
+        mn, sn = f"sftp_sess{seed}", f"mailto_list{seed}"
+        open(os.path.join(src, f"ftp_utils{seed}.f90"), "w").write("\n".join([
+            f"module {mn}", "!! doc of the sftp module", "implicit none", "contains", f"subroutine {sn}()", "!! doc of the mailto routine", f"end subroutine {sn}",
+            f"function https_get{seed}() result(r)", "!! doc", "integer :: r", "r = 0", f"end function https_get{seed}", f"end module {mn}"]) + "\n")
+        extra_targets = [mn, sn]
     st = fgen.Style(seed + 2)
     for f in files:
         stmts = fgen.render_file(f, st)
@@ -100,7 +108,7 @@ def make_project(seed, root):
             "sort": rng.choice(["src", "alpha", "permission", "permission-alpha", "type", "type-alpha"]), "source": rng.random() < 0.3,
             "warn": False, "quiet": True}
     # the same [[entity]] references on the front page, in the summary and on static pages of every depth
-    targets = [u.name for f in files for u in f.units if getattr(u, "kind", None) in ("module", "program")][:2]
+    targets = extra_targets + [u.name for f in files for u in f.units if getattr(u, "kind", None) in ("module", "program")][:2]
     refs = (" See " + " and ".join(f"[[{t}]]" for t in targets) + ".") if targets and seed % 3 != 2 else ""
     if rng.random() < 0.5:
         opts["page_dir"] = make_pages(root, rng, rng.randint(0, 2), refs)
@@ -114,6 +122,17 @@ def make_project(seed, root):
     if rng.random() < 0.3:
         opts["summary"] = "Short summary text" + refs
         opts["author"] = "A. Uthor"
+    if rng.random() < 0.3:
+        # the user's own icon / style sheet / MathJax configuration
+        icon = rng.choice(["logo.ico", "icon.svg", "fav.PNG", "my.png"])
+        open(os.path.join(root, icon), "wb").write(b"ICON")
+        opts["favicon"] = "./" + icon
+        if rng.random() < 0.5:
+            open(os.path.join(root, "custom.css"), "w").write("h1 { color: red }\n")
+            opts["css"] = "./custom.css"
+        if rng.random() < 0.5:
+            open(os.path.join(root, "mj.js"), "w").write("window.MathJax = {};\n")
+            opts["mathjax_config"] = "./mj.js"
     if rng.random() < 0.2:
         opts["extra_filetypes"] = ["inc !"]
         open(os.path.join(src, f"extra{seed}.inc"), "w").write("! just a comment\n!! doc for the include file zx1\n")
@@ -128,7 +147,7 @@ def run_case(item):
 def case(seed):
     base0 = core.mktemp("vf_c09_")
     # the project (and so the output directory) sometimes lives in a directory whose name needs URL quoting
-    base = os.path.join(base0, ["plain", "my proj", "pr\u00f6j (v2)", "a#b%20c"][seed % 4]) if seed % 3 == 0 else base0
+    base = os.path.join(base0, ["plain", "my proj", "pr\u00f6j (v2)", "a#b%20c", "srv ftp", "mailto"][(seed // 3) % 6]) if seed % 3 == 0 else base0
     os.makedirs(base, exist_ok=True)
     try:
         shape, opts = make_project(seed, base)
